@@ -118,6 +118,12 @@ func genBinding(rng *hk.Rand, status int) *progSpec {
 			t.B.ReadErr = 800
 		}
 	}
+	if p.AutoRead == 0 && rng.Chance(12) {
+		p.Save = true
+		if rng.Chance(25) && t.B.Body != "" && t.B.ReadErr == 0 {
+			t.B.WriteErr = 850
+		}
+	}
 	if p.OnError && rng.Chance(30) {
 		p.HookMode = hk.Pick(rng, []string{"set", "clear", "panic"})
 		p.HookTag = 950
@@ -231,6 +237,10 @@ func genPipeline(rng *hk.Rand) *progSpec {
 		} else if rng.Chance(failP / 2) {
 			at.T.B.ReadErr = tg.next()
 		}
+		at.T2 = toutSpec{Status: genStatus(rng), B: genBody(rng)}
+		if rng.Chance(failP) {
+			at.T2 = toutSpec{Fail: tg.next()}
+		}
 		for i := 0; i < nCli; i++ {
 			at.Cli = append(at.Cli, genMw(rng, tg, failP))
 		}
@@ -284,6 +294,23 @@ func genPipeline(rng *hk.Rand) *progSpec {
 	}
 	if regime == 2 && rng.Chance(4) {
 		p.ReqErr = 900
+	}
+	if nW > 0 && rng.Chance(8) { // a wrapper that calls the inner round-tripper twice (every attempt)
+		i := rng.Intn(nW)
+		for a := range p.Attempts {
+			p.Attempts[a].Wraps[i] = wrapSpec{Kind: "twice"}
+		}
+	}
+	if nW > 0 && rng.Chance(5) { // the outermost wrapper makes a response up in one attempt
+		p.Attempts[rng.Intn(nAtt)].Wraps[nW-1] = wrapSpec{Kind: "fab", Status: hk.Pick(rng, []int{200, 201, 204, 404, 500, 302})}
+	}
+	if rng.Chance(12) && p.AutoRead == 0 {
+		p.Save = true
+		for a := range p.Attempts {
+			if rng.Chance(20) && p.Attempts[a].T.B.Body != "" && p.Attempts[a].T.B.ReadErr == 0 {
+				p.Attempts[a].T.B.WriteErr = tg.next()
+			}
+		}
 	}
 	if rng.Chance(10) { // the request's context ends at one point of one attempt
 		at := &p.Attempts[rng.Intn(nAtt)]
@@ -498,7 +525,7 @@ func runC18(r *hk.Run) {
 // what a real net/http origin can serve exactly as scripted
 func realisable(p *progSpec) bool {
 	ok := func(t toutSpec) bool {
-		if t.Fail != 0 || t.B.ReadErr != 0 {
+		if t.Fail != 0 || t.B.ReadErr != 0 || t.B.WriteErr != 0 {
 			return false
 		}
 		if t.Status < 200 || t.Status == 204 || t.Status == 304 {
